@@ -1,7 +1,7 @@
-\* non-vacuity self-test: the named deviation "caller-from-stack" of the Impl model MUST be refuted (ImplAgrees)
+\* non-vacuity self-test: the named deviation "caller-from-stack" of the Impl model MUST be refuted (invariant ImplAgrees)
 SPECIFICATION Spec
 CONSTANTS
-  Family = "subject"
+  Family = "small"
   Deviation = "caller-from-stack"
   MaxLinks = 2
 INVARIANTS ImplAgrees
